@@ -43,8 +43,9 @@ type scenario struct {
 	StopMs  int    `json:"stop_ms"`
 	Hups    []int  `json:"hups_ms"`
 	Pre     int    `json:"preexisting"`
-	Restart string `json:"restart"`    // "", "term", "kill": after the stop the tool is started again over what is there
-	Foreign int    `json:"foreign_ms"` // >0: at this time somebody else creates, in the output dir, the names of the work files
+	Post    int    `json:"post_restart_msgs"` // messages published only after the restart (the last Post of msgs)
+	Restart string `json:"restart"`           // "", "term", "kill": after the stop the tool is started again over what is there
+	Foreign int    `json:"foreign_ms"`        // >0: at this time somebody else creates, in the output dir, the names of the work files
 	Seed    int64  `json:"seed"`
 }
 
@@ -73,6 +74,7 @@ type scenResult struct {
 	OpenOld      int
 	Files        int
 	GzTruncated  int
+	TornMembers  int
 	Killed       bool
 	ExitCode     int
 	Stuck        bool
@@ -236,7 +238,7 @@ func runScenario(base string, sc scenario, bin string) (res scenResult) {
 	}
 
 	next := 1
-	for ; next <= sc.Backlog && next <= sc.NMsgs; next++ {
+	for ; next <= sc.Backlog && next <= sc.NMsgs && (sc.Restart == "" || next <= sc.NMsgs-sc.Post); next++ {
 		if err := publish(next); err != nil {
 			return fail("publish: %v", err)
 		}
@@ -250,7 +252,7 @@ func runScenario(base string, sc scenario, bin string) (res scenResult) {
 		f := strings.SplitN(sc.Inject, ":", 2)
 		killClass = f[0]
 		killK, _ = strconv.Atoi(f[1])
-		call := map[string]string{"open": "openat", "write": "write", "fin": "write", "fsync": "fsync", "close": "close",
+		call := map[string]string{"open": "openat", "write": "write", "gzhdr": "write", "fin": "write", "fsync": "fsync", "close": "close",
 			"link": "linkat", "unlink": "unlinkat"}[killClass]
 		// every return of that call is held for 40 ms: time for the watcher below to land the SIGKILL exactly there
 		args = append(args, "-e", "inject="+call+":delay_exit=40000")
@@ -342,7 +344,14 @@ func runScenario(base string, sc scenario, bin string) (res scenResult) {
 		i    int
 	}
 	var acts []act
-	rest := sc.NMsgs - next + 1
+	firstPhase := sc.NMsgs
+	if sc.Restart != "" {
+		firstPhase -= sc.Post
+	}
+	rest := firstPhase - next + 1
+	if rest < 0 {
+		rest = 0
+	}
 	at := 0
 	for i := 0; i < rest; i++ {
 		if rng.Intn(3) == 0 {
@@ -467,8 +476,21 @@ func runScenario(base string, sc scenario, bin string) (res scenResult) {
 		for dl := time.Now().Add(30 * time.Second); tool2 == 0 && time.Now().Before(dl) && !wait2(2*time.Millisecond); {
 			tool2 = findTool(bin, out)
 		}
+		// more traffic for the second incarnation: what it acknowledges must be readable too, in whatever file it
+		// chose to continue (the leftovers of the first one may end in a torn record / torn gzip member)
+		for i := sc.NMsgs - sc.Post + 1; i <= sc.NMsgs; i++ {
+			if i < 1 || ids[i] != "" {
+				continue
+			}
+			if rng.Intn(3) == 0 {
+				wait2(time.Duration(rng.Intn(120)) * time.Millisecond)
+			}
+			if err := publish(i); err != nil {
+				return fail("publish: %v", err)
+			}
+		}
 		if sc.Restart == "kill" {
-			wait2(time.Duration(200+rng.Intn(1500)) * time.Millisecond)
+			wait2(time.Duration(200+rng.Intn(2500)) * time.Millisecond)
 			if !gone && tool2 != 0 {
 				syscall.Kill(tool2, syscall.SIGKILL)
 			}
@@ -649,7 +671,7 @@ func runScenario(base string, sc scenario, bin string) (res scenResult) {
 		if err != nil {
 			return fail("strace log (2nd): %v", err)
 		}
-		model.fds = map[int]*openFile{} // a new process: no descriptor survives, the files do
+		model.died()
 		if err := model.apply(recs2); err != nil {
 			return fail("syscall log (2nd) not understood: %v", err)
 		}
@@ -668,11 +690,13 @@ func runScenario(base string, sc scenario, bin string) (res scenResult) {
 	if settled == nil {
 		settled = []int{}
 	}
+	model.died()
 	model.emit("Settled", "m", settled)
 	model.emit("PowerLoss")
 	res.Events = model.events
 	res.Fins, res.Fsyncs, res.Creates, res.Links = model.nFin, model.nFsync, model.nCreate, model.nLink
 	res.LinkEEXIST, res.OpenEEXIST, res.OpenOld = model.nLinkEEXIST, model.nOpenEEXIST, model.nOpenOld
+	res.TornMembers = model.nTorn
 	// cross-check of the two views: a message nsqd does not owe any more must have had its FIN in the log
 	finned := map[int]bool{}
 	for _, t := range model.finOrder {
@@ -711,8 +735,9 @@ func hexOf(s string) string {
 // watchAndKill tails the strace log and sends SIGKILL to the tool right after the k-th successful return of a
 // call of the given class (the tool is held by strace's delay_exit at that moment).
 func watchAndKill(path, class string, k int, dirs []string, pid int, fired chan<- bool, stop <-chan struct{}) {
-	call := map[string]string{"open": " openat(", "write": " write(", "fin": " write(", "fsync": " fsync(", "close": " close(",
+	call := map[string]string{"open": " openat(", "write": " write(", "gzhdr": " write(", "fin": " write(", "fsync": " fsync(", "close": " close(",
 		"link": " linkat(", "unlink": " unlinkat("}[class]
+	hexGz := "\"" + hexOf("\x1f\x8b\x08\x00\x00\x00\x00\x00\x00\xff") + "\""
 	var hexDirs []string
 	for _, d := range dirs {
 		hexDirs = append(hexDirs, hexOf(strings.TrimSuffix(d, "/")+"/"))
@@ -765,6 +790,10 @@ func watchAndKill(path, class string, k int, dirs []string, pid int, fired chan<
 			switch class {
 			case "fin":
 				if !strings.Contains(line, hexFin) {
+					continue
+				}
+			case "gzhdr": // the 10-byte gzip header: a member has just been opened, the batch in it is pending
+				if !onData(line) || !strings.Contains(line, hexGz) {
 					continue
 				}
 			case "open", "write", "close":
